@@ -21,6 +21,7 @@ from elementpath.xpath_tokens import XPathToken, ProxyToken, XPathFunction, \
 from elementpath.sequences import xlist
 
 from .xpath31_parser import XPath31Parser
+from elementpath.helpers import OPTIONAL_COMMENTS
 
 __all__ = ['XPath31Parser']
 
@@ -29,7 +30,7 @@ method = XPath31Parser.method
 function = XPath31Parser.function
 
 register('map', bp=90, label=('kind test', 'map'), bases=(XPathFunction,),
-         pattern=r'(?<!\$)\bmap(?=\s*(?:\(\:.*\:\))?\s*(?:\((?!\:)|\{))')
+         pattern=r'(?<!\$)\bmap(?=' + OPTIONAL_COMMENTS + r'(?:\((?!\:)|\{))')
 
 
 @method('map')
@@ -61,7 +62,7 @@ def nud__map_sequence_type_or_constructor(self: XPathFunction) \
 
 
 register('array', bp=90, label=('kind test', 'array'), bases=(XPathFunction,),
-         pattern=r'(?<!\$)\barray(?=\s*(?:\(\:.*\:\))?\s*(?:\((?!\:)|\{))')
+         pattern=r'(?<!\$)\barray(?=' + OPTIONAL_COMMENTS + r'(?:\((?!\:)|\{))')
 
 
 @method('array')
